@@ -47,7 +47,7 @@ def _pure_code_projection(text: str) -> bool:
 
 
 def check(P: Project, R: Report) -> None:
-    R.rule("R1", "NON_RETRYABLE_ERRORS and RETRYABLE_ERRORS are disjoint and every named code constant belongs to exactly one of them; ERROR_MESSAGES names the same codes")
+    R.rule("R1", "NON_RETRYABLE_ERRORS and RETRYABLE_ERRORS are disjoint and every named code constant belongs to exactly one of them")
     R.rule("R2", "is_retryable_error is total: on every path it returns the complement of membership in NON_RETRYABLE_ERRORS and never raises")
     R.rule("R3", "in the response processor every path with error present ends in raise RetryableError/NonRetryableError chosen by is_retryable_error(code), carrying code and the server's message; no return on that branch")
     R.rule("R4", "no function that awaits send_message (directly or through a helper) swallows the two error classes, except the three documented boolean helpers, which must return False")
@@ -56,9 +56,7 @@ def check(P: Project, R: Report) -> None:
     # ---------------------------------------------------------------- R1
     non_retry = module_const(P, A.MOD_ERRORS, "NON_RETRYABLE_ERRORS")
     retry = module_const(P, A.MOD_ERRORS, "RETRYABLE_ERRORS")
-    messages = module_const(P, A.MOD_ERRORS, "ERROR_MESSAGES")
     R.need(isinstance(non_retry, (set, frozenset)) and isinstance(retry, (set, frozenset)), "error code sets are not set displays")
-    R.need(isinstance(messages, dict), "ERROR_MESSAGES is not a dict display")
     named = {}
     for n in errors.tree.body:
         if isinstance(n, ast.Assign) and len(n.targets) == 1 and isinstance(n.targets[0], ast.Name):
@@ -75,11 +73,8 @@ def check(P: Project, R: Report) -> None:
         n_in = (v in non_retry) + (v in retry)
         R.ob("R1", f"code {nm}", n_in == 1, errors.rel, f"{nm}={v} is in {n_in} of the two sets (must be exactly one)",
              sample=f"R1 {nm}={v}: " + ("permanent" if v in non_retry else "retryable" if v in retry else "UNCLASSIFIED"))
-        R.ob("R1", f"message {nm}", v in messages, errors.rel, f"{nm}={v} has no ERROR_MESSAGES entry")
     stray = sorted((set(non_retry) | set(retry)) - set(named.values()))
     R.ob("R1", "no-unnamed-member", not stray, errors.rel, f"set members that are not named code constants: {stray}")
-    stray_m = sorted(k for k in messages if k not in set(named.values()))
-    R.ob("R1", "messages-only-named", not stray_m, errors.rel, f"ERROR_MESSAGES keys that are not named codes: {stray_m}")
 
     # ---------------------------------------------------------------- R2
     fi = P.func(A.MOD_ERRORS, "is_retryable_error")
@@ -163,8 +158,10 @@ def check(P: Project, R: Report) -> None:
         R.need(call is not None, f"raise at line {node.lineno} is not a constructor call")
         args = [subst_text(a, st) for a in call.args] + [f"{k.arg}={subst_text(k.value, st)}" for k in call.keywords]
         # which literal chose this class
-        chooser_pos = [l for l in st.lits if l.startswith("is_retryable_error(")]
-        chooser_neg = [l for l in st.lits if l.startswith("not is_retryable_error(")]
+        # the classifier's verdict may be tested directly or through a local it was bound to (`r = is_retryable_error(code)`)
+        expanded = [an.origin(l).replace("<", "").replace(">", "") for l in st.lits]
+        chooser_pos = [l for l in expanded if l.startswith("is_retryable_error(")]
+        chooser_neg = [l for l in expanded if l.startswith("not is_retryable_error(")]
         if short == "RetryableError":
             ok_choice = bool(chooser_pos) and not chooser_neg
             chosen = chooser_pos
